@@ -102,6 +102,12 @@ impl C07 {
                     }
                 }
             }
+            // a function's own address is unrelated to where its instructions are: one in three gets the
+            // address of some block of the program (branch targets are found by instruction address)
+            if !firsts.is_empty() && rng.chance(1, 3) {
+                let a = *rng.pick(&firsts);
+                f2 = il::Function::new(a, f2.control_flow_graph().clone());
+            }
             patched.add_function(f2);
         }
         let big = rng.bool();
